@@ -33,7 +33,7 @@ m = {
                  'kind_free_text': 'repository-specific static analysis over Python ast: whole-program index, per-function CFG with exception/cancellation edges, call resolution from annotations, decision tables by abstract interpretation, exception-escape analysis, regex structure; stdlib only'}],
     'checks': checks,
     'not_applicable': na,
-    'notes': 'All checks are static (no execution of wpull). Exit 0 held / 1 VIOLATION / 2 ANALYSIS-ERROR. Known findings in /verif/KNOWN_FINDINGS.txt. Self-test corpus: /venv/bin/python selftest/run.py',
+    'notes': 'All checks are static (no execution of wpull). Exit 0 held / 1 VIOLATION / 2 ANALYSIS-ERROR. Known findings in /verif/KNOWN_FINDINGS.txt. quick = every rule of the property over the whole program; thorough = the same rules plus, recorded in evidence and never changing the exit status, the property\'s seeded-defect corpus (selftest/corpus + /verif/seeded, applied to scratch copies) and six whole-tree behaviour-preserving rewrites that must stay silent. Self-test tools: selftest/run.py, selftest/cross.py, selftest/benign_transforms.py, selftest/vet_seed.py. Which check catches which independently seeded change: DESIGN-seeds.md',
 }
 json.dump(m, open(os.path.join(HERE, 'MANIFEST.json'), 'w'), indent=1)
 print(len(checks), 'checks;', len(na), 'not applicable')
